@@ -104,7 +104,12 @@ class PROP(Prop):
             # the timeout at the ends of its legal range: the largest Duration (given at connect time or set later) can never fire and
             # behaves like no timeout; a zero timeout is legal too
             for i in range(3 if tier == "quick" else 30):
-                ops, slave = gen_ops(rng, proto, rng.randrange(2, 6), False)
+                while True:
+                    ops, slave = gen_ops(rng, proto, rng.randrange(2, 6), False)
+                    # no silent peer and no timeout change of its own in these sequences: under a timeout that cannot fire a silent peer
+                    # would block for ever (the harness' watchdog would then end the run, which the model does not know about)
+                    if not any(o.endswith(" s") or o.startswith("timeout") for o in ops):
+                        break
                 how = i % 3
                 if how == 0:
                     tmo = "max"
@@ -123,7 +128,10 @@ class PROP(Prop):
             # a ZERO timeout is a timeout: an operation that has to wait for its peer times out at once, exactly as the async operation
             # under tokio::time::timeout(Duration::ZERO, ..) does (only `None` means "no timeout")
             for i in range(3 if tier == "quick" else 20):
-                ops, slave = gen_ops(rng, proto, rng.randrange(0, 3), False)
+                while True:
+                    ops, slave = gen_ops(rng, proto, rng.randrange(0, 3), False)
+                    if not any(o.endswith(" s") or o.startswith("timeout") for o in ops):
+                        break
                 if ops and ops[-1].endswith(" c"):
                     ops = ops[:-1]
                 req = ("RHR", rng.randrange(65536), rng.randrange(1, 5))
